@@ -1,28 +1,17 @@
 #!/bin/sh
-# Must-fail corpus: every mutant patch is applied to a scratch copy of /repo (never to /repo) and
-# the named property checks must report a VIOLATION there. usage: selftest/run.sh [name-prefix]
+# Must-fail corpus: every mutant patch is applied to a scratch copy of a snapshot of /repo (never to
+# /repo) and the named property checks must report a VIOLATION there.
+# usage: selftest/run.sh [name-prefix]      (SELFTEST_JOBS mutants at a time, default 4)
 cd "$(dirname "$0")/.." || exit 2
 export GOFLAGS=-mod=mod GOPROXY=off GOSUMDB=off GOTOOLCHAIN=local
 [ -x bin/goatvc ] || (cd engine && go build -o ../bin/goatvc .) || exit 2
-fail=0; n=0
-for meta in selftest/mutants/${1:-}*.json; do
-  name=$(basename "$meta" .json)
-  patch="selftest/mutants/$name.patch"
-  props=$(python3 -c "import json;print(' '.join(json.load(open('$meta'))['properties']))")
-  scratch=$(mktemp -d /tmp/goatvc-mut.XXXXXX)
-  rsync -a --exclude .git /repo/ "$scratch/"
-  if ! (cd "$scratch" && patch -p1 -s < "/verif/$patch"); then echo "SKIP $name (patch does not apply)"; rm -rf "$scratch"; continue; fi
-  if ! (cd "$scratch" && go build ./... >/dev/null 2>&1); then echo "SKIP $name (does not compile)"; rm -rf "$scratch"; continue; fi
-  for p in $props; do
-    n=$((n+1))
-    out=$(VERIF_DIR=/verif bin/goatvc check -repo "$scratch" -prop "$p" -no-evidence 2>&1); rc=$?
-    if [ $rc -eq 1 ] && echo "$out" | grep -q "^VIOLATION property=$p"; then
-      echo "ok    $name $p: $(echo "$out" | grep -c '^VIOLATION') violation(s): $(echo "$out" | grep '^  FAILED' | head -2 | awk '{print $2}' | tr '\n' ' ')"
-    else
-      echo "MISS  $name $p (exit $rc)"; fail=$((fail+1))
-    fi
-  done
-  rm -rf "$scratch"
-done
-echo "selftest: $n checks, $fail missed"
-[ $fail -eq 0 ]
+snap=$(mktemp -d /tmp/goatvc-snap.XXXXXX)
+rsync -a --exclude .git /repo/ "$snap/"
+out=$(mktemp -d /tmp/goatvc-selftest.XXXXXX)
+ls selftest/mutants/${1:-}*.json | xargs -P "${SELFTEST_JOBS:-4}" -I{} sh selftest/one.sh {} "$snap" "$out"
+cat "$out"/*.txt
+n=$(cat "$out"/*.txt | grep -c "^ok\|^MISS")
+fail=$(cat "$out"/*.txt | grep -c "^MISS\|^SKIP")
+rm -rf "$snap" "$out"
+echo "selftest: $n checks, $fail missed or skipped"
+[ "$fail" -eq 0 ]
